@@ -42,6 +42,15 @@ def run_one(s):
         k = max(c["k"], 1) if names else 0      # a parameter-dependent domain needs its parameters
         rows = rows_for(names, k, tid + ci)
         par = U.mk_params(names, rows)
+        if c.get("extra"):
+            # a batch of parameter rows that ALSO carries a variable the expression does not use (a parameter of another part of the
+            # problem): n points for every row all the same
+            free = [v for v in ("t", "k") if v not in names and v not in U.space_vars(e)]
+            if free:
+                nm2 = sorted(names + free[:1])
+                k = c["k"]
+                rows = rows_for(nm2, k, tid + ci)
+                par = U.mk_params(nm2, rows)
         rec = {"kind": c["kind"], "n": c.get("n", 0), "d": c.get("d", 0), "k": k, "exc": "", "rows": [], "count": 0,
                "prm": [{n: v * U.F for n, v in r.items()} for r in rows], "filter": c.get("filter", 0)}
         kind = c["kind"]
